@@ -468,7 +468,13 @@ fn main() {
     let mut rng = Rng::new(args.seed);
     let mut sink = Sink::new(&args, "KV.C47.Model", 60);
     sink.rule = "each case = one real Runtime::exec on a fresh tokio runtime (current_thread or 2..4 workers): random supervisor tree (depth<=3 below the primary) of blocker / early-finishing / long-running actors with random yields and sleeps, subordinate supervisors stopped at random points (inline or from concurrent tasks), then Terminate/Interrupt; the case is the recorded event log. non-trivial = at least one stop (of a subordinate or of the runtime) was called while an actor under it had not yet begun its cleanup".into();
-    let n = if args.thorough { 4000 } else { 500 };
+    let mut n = if args.thorough { 4000 } else { 500 };
+    // `--cases N` (manual probing only)
+    if let Some(k) = args.extra.iter().position(|a| a == "--cases") {
+        if let Some(v) = args.extra.get(k + 1).and_then(|v| v.parse().ok()) {
+            n = v;
+        }
+    }
     for i in 0..n {
         let plan = gen_plan(&mut rng, i % 5 == 4);
         let out = run_case(&plan);
